@@ -56,6 +56,17 @@ def ctor_params(cls) -> Optional[List[str]]:
     return None
 
 
+def is_private_namedtuple(cls) -> bool:
+    return cls.name.startswith('_') and 'NamedTuple' in cls.base_names and cls.lookup('__new__') is None and cls.lookup('__init__') is None
+
+
+def nt_value(v):
+    """(class name, argument nodes) when v is the pure value of a private NamedTuple construction"""
+    if isinstance(v, ast.Call) and isinstance(v.func, ast.Name) and v.func.id.startswith('@nt:'):
+        return v.func.id[4:], v.args
+    return None
+
+
 def bind_keywords(params, args, kwargs):
     """move keyword arguments into positional order as far as the parameters are consecutive from the left"""
     if params is None or not kwargs:
@@ -279,7 +290,7 @@ class Executor:
                     body = [s_ for s_ in own.node.body if not (isinstance(s_, ast.Expr) and isinstance(s_.value, ast.Constant))]
                     abstract = (not body or all(isinstance(s_, ast.Pass) for s_ in body) or
                                 (len(body) == 1 and isinstance(body[0], ast.Raise) and body[0].exc is not None and
-                                 'NotImplemented' in ast.unparse(body[0].exc)) or
+                                 re.search(r'not_?implemented', ast.unparse(body[0].exc), re.I) is not None) or
                                 any('abstractmethod' in d for d in own.decorators()))
                     v = abstract
             self._ordinals[k] = v
@@ -1037,6 +1048,8 @@ class Executor:
             st.locals[target.id] = value
             return
         if isinstance(target, (ast.Tuple, ast.List)):
+            if nt_value(value) is not None:
+                value = ast.Tuple(elts=list(nt_value(value)[1]), ctx=ast.Load())      # unpacking a NamedTuple value
             for i, t in enumerate(target.elts):
                 if isinstance(t, ast.Starred):
                     self.assign(t.value, name('@star%d' % ln), st, fctx, ln)
@@ -1183,6 +1196,15 @@ class Executor:
         """split on an atomic condition; prune what the path's literals already decide"""
         if atom[0] == 'const':
             return [(st, atom[1] == pol, None)]
+        if atom[0] == 'none' and isinstance(atom[1], str) and len(atom[1]) > 1:
+            # a value whose attribute this path has already read (a comparison of `t.key` decided earlier) is not None:
+            # `victim = self._find(..)`, which returns `candidate` only after `candidate.key > ..`, then `victim is not None`
+            t = atom[1]
+            probe = t + '.'
+            for a, _p, _l in st.lits:
+                if a[0] in ('cmp', 'truthy', 'bit') and isinstance(a[1], str) and probe in a[1] and not any(
+                        a[1][i - 1].isalnum() or a[1][i - 1] in '_@%' for i in [a[1].index(probe)] if i > 0):
+                    return [(st, not pol, None)]
         from .regions import feasible
         outs = []
         for truth in (True, False):
@@ -1360,6 +1382,14 @@ class _Ev:
                 if isinstance(v, ast.Call) and isinstance(v.func, ast.Name) and v.func.id in ('float', 'int') and len(v.args) == 1 \
                         and isinstance(v.args[0], ast.Constant) and not v.keywords:
                     return copy.deepcopy(v)
+                # _size_of = operator.attrgetter('size') / itemgetter(1): the lambda it stands for
+                if isinstance(v, ast.Call) and not v.keywords and len(v.args) == 1 and isinstance(v.args[0], ast.Constant):
+                    fn_ = ast.unparse(v.func).split('.')[-1]
+                    prm_ = ast.arguments(posonlyargs=[], args=[ast.arg(arg='_x')], kwonlyargs=[], kw_defaults=[], defaults=[])
+                    if fn_ == 'attrgetter' and isinstance(v.args[0].value, str) and v.args[0].value.isidentifier():
+                        return ast.Lambda(args=prm_, body=ast.Attribute(value=ast.Name(id='_x', ctx=ast.Load()), attr=v.args[0].value, ctx=ast.Load()))
+                    if fn_ == 'itemgetter':
+                        return ast.Lambda(args=prm_, body=ast.Subscript(value=ast.Name(id='_x', ctx=ast.Load()), slice=copy.deepcopy(v.args[0]), ctx=ast.Load()))
             # EventPriority(0) style constants
             if isinstance(v, ast.Call) and len(v.args) == 1 and isinstance(v.args[0], ast.Constant) and \
                     isinstance(v.func, ast.Name) and v.func.id[:1].isupper() and not v.keywords:
@@ -1377,6 +1407,29 @@ class _Ev:
         return res
 
     def load_attr(self, v, attr, st):
+        nt = nt_value(v)
+        if nt is not None:
+            try:
+                ci = self.x.repo.find_class(nt[0])
+            except Exception:
+                ci = None
+            if ci is not None:
+                fields = ctor_params(ci) or []
+                if attr in fields:
+                    return [(st, nt[1][fields.index(attr)], None)]
+                g = ci.property_getter(attr) if hasattr(ci, 'property_getter') else None
+                if g is not None:
+                    from .normalize import expression_of
+                    e_ = expression_of(g.node)
+                    if e_ is not None and e_[0] == ['self']:
+                        class _F(ast.NodeTransformer):
+                            def visit_Attribute(self_, n):
+                                self_.generic_visit(n)
+                                if isinstance(n.value, ast.Name) and n.value.id == 'self' and n.attr in fields:
+                                    return copy.deepcopy(nt[1][fields.index(n.attr)])
+                                return n
+                        # the fields are values already: the property's expression over them, not evaluated again
+                        return [(st, _F().visit(copy.deepcopy(e_[1])), None)]
         node = ast.Attribute(value=v, attr=attr, ctx=ast.Load())
         key = plain(term(node))
         if key in st.heap:
@@ -1437,6 +1490,9 @@ class _Ev:
                 elif isinstance(v, (ast.Tuple, ast.List)) and isinstance(i, ast.Constant) and isinstance(i.value, int) \
                         and -len(v.elts) <= i.value < len(v.elts):
                     res.append((s3, v.elts[i.value], None))
+                elif nt_value(v) is not None and isinstance(i, ast.Constant) and isinstance(i.value, int) \
+                        and -len(nt_value(v)[1]) <= i.value < len(nt_value(v)[1]):
+                    res.append((s3, nt_value(v)[1][i.value], None))
                 else:
                     res.append((s3, self.tag(node, key, s3), None))
         return res
@@ -1722,6 +1778,19 @@ class _Ev:
             if _is_exception_name(fname) and fname not in st.locals:
                 # constructing an exception object has no effect; its arguments are messages
                 return [(st, ast.Call(func=name(fname), args=[], keywords=[]), None)]
+            if fname == 'map' and len(args) == 2 and not kwargs and isinstance(args[0], ast.Lambda) and len(args[0].args.args) == 1 \
+                    and not args[0].args.defaults:
+                # map(f, S) is (f(x) for x in S)
+                prm = args[0].args.args[0].arg
+
+                class _B(ast.NodeTransformer):
+                    def visit_Name(self_, n):
+                        if n.id == prm and isinstance(n.ctx, ast.Load):
+                            return ast.Name(id='_mx', ctx=ast.Load())
+                        return n
+                body = _B().visit(copy.deepcopy(args[0].body))
+                return [(st, ast.GeneratorExp(elt=body, generators=[ast.comprehension(target=ast.Name(id='_mx', ctx=ast.Store()),
+                                                                                      iter=args[1], ifs=[], is_async=0)]), None)]
             if fname in PURE_FUNCS or fname in x.opts.pure_calls or fname in PURE_QUALIFIED:
                 return [(st, ast.Call(func=name(fname), args=args,
                                       keywords=[ast.keyword(arg=k, value=v) for k, v in kwargs]), None)]
@@ -1734,6 +1803,9 @@ class _Ev:
                 # constructor call: effect (it may schedule events etc.).  Arguments are put into the order of the
                 # constructor's parameters: Packet(t, size=s) and Packet(time=t, size=s) are the same call
                 args, kwargs = bind_keywords(ctor_params(r[1]), args, kwargs)
+                if is_private_namedtuple(r[1]) and not kwargs and len(args) == len(ctor_params(r[1]) or ()):
+                    # a private NamedTuple is a tuple with named fields: a pure value, no effect
+                    return [(st, ast.Call(func=name('@nt:' + r[1].name), args=list(args), keywords=[]), None)]
                 return self.effect_call(r[1].name, name(r[1].name), args, kwargs, st, ln)
             return self.effect_call(fname, name(fname), args, kwargs, st, ln)
         # --- attribute calls
@@ -2004,6 +2076,8 @@ class _Subst(ast.NodeTransformer):
                 r = None
             if r and r[0] == 'ext' and '.' not in r[1] and r[1] != n.id:
                 return ast.copy_location(ast.Name(id=r[1], ctx=ast.Load()), n)
+            if r and r[0] == 'global' and isinstance(r[2], ast.Constant):
+                return copy.deepcopy(r[2])            # a module constant reads the same inside a comprehension
         return n
 
     def visit_Call(self, n):
@@ -2033,6 +2107,13 @@ class _Subst(ast.NodeTransformer):
             key = plain(term(n))
             if key in self.st.heap:
                 return copy.deepcopy(self.st.heap[key])
+            # a private class-level constant read through self, as at statement level
+            x = self.ev.x
+            if isinstance(n.value, ast.Name) and n.value.id in ('self', 'cls') and x.ctx is not None and n.attr.startswith('_') \
+                    and not n.attr.startswith('__'):
+                r = x.ctx.lookup_attr(n.attr)
+                if r is not None and n.attr not in x.instance_attrs() and isinstance(r[1], ast.Constant):
+                    return copy.deepcopy(r[1])
             if isinstance(n.value, ast.Name) and n.value.id == 'self' and self.ev.x.ctx is not None:
                 g = self.ev.x.ctx.property_getter(n.attr)
                 if g is not None:
